@@ -272,10 +272,15 @@ package vm
 // contexts of one script and is released only by the last of them - after the context now on top
 // has been looked up and found to belong to another script.
 //@ prop C12
+// every variable of a slot that is given up is released, the never-written ones included (each was
+// counted as one item when the slot was made)
 //@ func (Slot).clearRefs
-//@ assumed
+//@ may-panic
 //@ opt frame off
 //@ opt callers trust
+//@ call (*refCounter).Remove requires[slot] arg0 == refs && arg1 == item
+//@ ensures[all] ncalls("(*refCounter).Remove") == len(s)
+//@ loop 0 invariant[count] ncalls("(*refCounter).Remove") == $i
 //@ func (*VM).unloadContext
 //@ may-panic
 //@ opt frame off
